@@ -182,12 +182,15 @@ theorem prob_cond_marginal (M : Model) (hnodup : M.order.Nodup)
       rw [hk]
       rfl
 
-/-- **the two identities of Algorithm 3, semantic form.** -/
+/-- **the two identities of Algorithm 3, semantic form.**  `Ro` are the outcomes over vertices that no condition names,
+`Rx` the other roots: the conditions, and the outcomes that share their vertex with a condition (redundant by
+consistency). -/
 theorem cond_parts {M : Model} {σ : Y0.Val} {I R Rc : List Item} {range : List Name}
     (h : CondSem M σ I R Rc range) (hnorm : ∀ pmf ∈ M.noise, pmf.sum = 1)
     (card : Name → Nat) (hcard : ∀ v pa lat, M.f v pa lat < card v)
-    (Ro : List Item) (hR : ∀ j, j ∈ R ↔ j ∈ Ro ∨ j ∈ Rc) (hOn : (Ro.map (·.1)).Nodup)
-    (hOc : ∀ j ∈ Rc, j.1 ∉ Ro.map (·.1))
+    (Ro Rx : List Item) (hR : ∀ j, j ∈ R ↔ j ∈ Ro ∨ j ∈ Rx) (hRxc : ∀ j ∈ Rc, j ∈ Rx)
+    (hRx : ∀ j ∈ Rx, ∃ k ∈ Rc, k.1 = j.1) (hOn : (Ro.map (·.1)).Nodup)
+    (hOc : ∀ j ∈ Rx, j.1 ∉ Ro.map (·.1))
     (litO : ∀ i ∈ I, ∀ p ∈ M.pa i.1, ∀ x, forced i.2 p = some x → p ∉ Ro.map (·.1))
     (ND NR rD rR : List Name) (hN : ∀ n, (n ∈ ND ∨ n ∈ NR) ↔ ∃ i ∈ I, i.1 = n)
     (hrn : range.Nodup) (hperm : range.Perm (rD ++ rR))
@@ -219,7 +222,22 @@ theorem cond_parts {M : Model} {σ : Y0.Val} {I R Rc : List Item} {range : List 
   refine ⟨hnum σ (fun _ _ => rfl), ?_⟩
   have hRo : ∀ j ∈ Ro, j.1 ∈ M.order ∧ forced j.2 j.1 = none :=
     fun j hj => h.mem j (h.root j ((hR j).2 (Or.inl hj)))
-  rw [prob_cond_marginal M h.nodup h.topo σ R Ro Rc card hcard hRo hR hOn hOc]
+  -- an outcome that shares its vertex with a condition holds whenever the conditions hold (consistency)
+  have hcx : wsum M.noise (fun u => ind (rootsHold M σ Rc u)) = wsum M.noise (fun u => ind (rootsHold M σ Rx u)) := by
+    apply wsum_congr
+    intro u
+    apply ind_congr
+    constructor
+    · intro hEc
+      unfold rootsHold
+      rw [List.all_eq_true]
+      intro j hj
+      obtain ⟨k, hk, hkj⟩ := hRx j hj
+      have hc := h.consistent u hEc j (h.root j ((hR j).2 (Or.inr hj))) k (h.root k (h.cond k hk)) hkj.symm
+      rw [hc, CondSem.root_holds u hEc k hk, hkj]
+      simp
+    · exact CondSem.rootsHold_sub u Rx Rc hRxc
+  rw [hcx, prob_cond_marginal M h.nodup h.topo σ R Ro Rx card hcard hRo hR hOn hOc]
   have hstep : sumVars card (Ro.map (·.1)) (fun σ' => wsum M.noise (fun u => ind (rootsHold M σ' R u))) σ =
       sumVars card (Ro.map (·.1))
         (fun σ' => sumVars card rD (localProb M ND) σ' * sumVars card rR (localProb M NR) σ') σ := by
